@@ -104,6 +104,7 @@ type Engine struct {
 	skolemOf   map[*ast.FuncLit][]T
 	instWith   map[*ast.FuncLit][]T
 	invHead    *State
+	invHeadVis T // visited-set of a map range loop at the head of the iteration
 	exprPcParent map[string]string // short-circuit path conditions -> the path condition they refine
 	sawHavoc bool // a loop head forgot the heap somewhere in this function
 	strOfMemo map[string]strMemo
